@@ -34,7 +34,7 @@ ASSUMPTIONS = [
 ]
 NCASES = {"quick": 520, "thorough": 16000}
 NSHARDS = 16
-SHARD_TIMEOUT = {"quick": 900, "thorough": 3600}
+SHARD_TIMEOUT = {"quick": 300, "thorough": 3600}
 MOD = "vf.checks.c20"
 _SCRATCH = None
 AUDIT = {"open": 0, "os.remove": 0, "tempfile.mkstemp": 0}
@@ -592,7 +592,7 @@ def run_tmp_forked_use(case, res):
                 with pool as p:
                     for _ in range(spec["creates"]):
                         made.append(p.create())
-                    os.write(w, ("\n".join(made) + "\n").encode())
+                    os.write(w, ("\n".join(made) + "\nEND\n").encode())
                     if spec["raises"]:
                         raise Boom("child body raises")
             except Boom:
@@ -603,13 +603,31 @@ def run_tmp_forked_use(case, res):
             os._exit(code)
     os.close(w)
     data = b""
-    while True:
-        chunk = os.read(r, 65536)
-        if not chunk:
-            break
-        data += chunk
+    import select
+    t_end = time.time() + 60
+    while not data.endswith(b"END\n") and time.time() < t_end:
+        # not until end-of-file: a helper process the child started (the pool's manager) may outlive it and hold the pipe
+        if select.select([r], [], [], 1.0)[0]:
+            chunk = os.read(r, 65536)
+            if not chunk:
+                break
+            data += chunk
     os.close(r)
-    _, status = os.waitpid(pid, 0)
+    t_end = time.time() + 60
+    status = None
+    while time.time() < t_end:
+        got, st = os.waitpid(pid, os.WNOHANG)
+        if got:
+            status = st
+            break
+        time.sleep(0.01)
+    if status is None:
+        os.kill(pid, 9)
+        os.waitpid(pid, 0)
+        raise Violation("forked-use-failed", f"TmpPool(multi_proc={spec['multi']}) built in the parent and used in a forked child: the child "
+                        "did not finish within 60 s", {})
+    if data.endswith(b"END\n"):
+        data = data[:-4]
     res.evaluations += 1
     res.count("pools_used_in_a_forked_child")
     made = [x for x in data.decode().split("\n") if x]
